@@ -435,6 +435,19 @@ func DecodeObject(r io.Reader) (ugo.Object, error) {
 		}
 	case binUnkownType:
 		var v ugo.Object
+		if data, ok := unreadBytes(r); ok {
+			// gob allocates what a message declares as its length before
+			// reading it, gobReader checks the declared length against the
+			// data first.
+			gr := &gobReader{data: data}
+			if err := gob.NewDecoder(gr).Decode(&v); err != nil {
+				return nil, err
+			}
+			if _, err := io.CopyN(io.Discard, r, int64(gr.pos)); err != nil {
+				return nil, err
+			}
+			return v, nil
+		}
 		if err := gob.NewDecoder(r).Decode(&v); err != nil {
 			return nil, err
 		}
@@ -1360,6 +1373,89 @@ func checkSize(r io.Reader, size int64) error {
 		return io.ErrUnexpectedEOF
 	}
 	return nil
+}
+
+// unreadBytes returns the unread portion of r without consuming it if r is a
+// *bytes.Reader or *bytes.Buffer.
+func unreadBytes(r io.Reader) ([]byte, bool) {
+	switch v := r.(type) {
+	case *bytes.Buffer:
+		return v.Bytes(), true
+	case *bytes.Reader:
+		data := make([]byte, v.Len())
+		n, _ := v.ReadAt(data, v.Size()-int64(v.Len()))
+		return data[:n], true
+	}
+	return nil, false
+}
+
+// gobReader feeds gob messages to a gob.Decoder. Every message is a length
+// prefixed payload; a message whose declared length exceeds the data is
+// rejected before the decoder sees its length.
+type gobReader struct {
+	data    []byte
+	pos     int
+	msgLeft int
+}
+
+func (g *gobReader) next() error {
+	if g.msgLeft > 0 {
+		return nil
+	}
+	size, n, err := gobUint(g.data[g.pos:])
+	if err != nil {
+		return err
+	}
+	if size > uint64(len(g.data)-g.pos-n) {
+		return errors.New("invalid gob message size")
+	}
+	g.msgLeft = n + int(size)
+	return nil
+}
+
+// Read implements io.Reader.
+func (g *gobReader) Read(p []byte) (int, error) {
+	if err := g.next(); err != nil {
+		return 0, err
+	}
+	if len(p) > g.msgLeft {
+		p = p[:g.msgLeft]
+	}
+	n := copy(p, g.data[g.pos:])
+	g.pos += n
+	g.msgLeft -= n
+	return n, nil
+}
+
+// ReadByte implements io.ByteReader.
+func (g *gobReader) ReadByte() (byte, error) {
+	if err := g.next(); err != nil {
+		return 0, err
+	}
+	b := g.data[g.pos]
+	g.pos++
+	g.msgLeft--
+	return b, nil
+}
+
+// gobUint decodes an unsigned integer in gob encoding: a value less than 128
+// is a single byte otherwise the first byte holds the negated byte count of the
+// big-endian value that follows.
+func gobUint(data []byte) (value uint64, n int, err error) {
+	if len(data) == 0 {
+		return 0, 0, io.ErrUnexpectedEOF
+	}
+	if data[0] <= 0x7f {
+		return uint64(data[0]), 1, nil
+	}
+	count := -int(int8(data[0]))
+	if count > 8 || len(data) < 1+count {
+		return 0, 0, errors.New("invalid gob integer")
+	}
+	for _, b := range data[1 : 1+count] {
+		value = value<<8 | uint64(b)
+	}
+	return value, 1 + count, nil
 }
 
 func readByteFrom(r io.Reader) (byte, error) {
